@@ -5,6 +5,8 @@ import (
 	"bytes"
 	"fmt"
 
+	cc "gitlab.com/gomidi/midi/v2/internal/verifh/conccases"
+	cp "gitlab.com/gomidi/midi/v2/internal/verifh/concpairs"
 	"gitlab.com/gomidi/midi/v2/internal/verifh/engine"
 	"gitlab.com/gomidi/midi/v2/mmc"
 	"gitlab.com/gomidi/midi/v2/sysex"
@@ -323,11 +325,18 @@ func mmcChecks(part, parts int) {
 func main() {
 	ctx = engine.Start("C18", "exploration")
 	if ctx.ReplayPath != "" {
+		if cp.Replay(ctx, ctx.LoadReplay(), "sysex", cc.Sysex()) {
+			ctx.Finish("replay")
+		}
 		m := ctx.LoadReplay()
 		fmt.Println("sysex case:", m["value"], "-", m["what"], "(pure function of the value; re-run ./run C18 quick)")
 		return
 	}
 	ctx.Assume("a corruption replaces one address, payload or checksum byte by another 7-bit value")
+	ctx.Jobs("concurrent", 1, func(int) {
+		cp.Litmus(ctx)
+		cp.Check(ctx, "sysex", cc.Sysex())
+	})
 	ctx.Jobs("roland", 16, func(j int) { roland(j, 16) })
 	ctx.Jobs("mmc", 8, func(j int) { mmcChecks(j, 8) })
 	ctx.Sample(map[string]interface{}{"value": "GMReset {41 10 42 data-set 40 00 7F [00]}", "bytes": "F0 41 10 42 12 40 00 7F 00 41 F7", "corruptions": "each of bytes 5..9 replaced by each of the 127 other 7-bit values"})
